@@ -127,7 +127,7 @@ struct LockEngine : Engine {
 			nlocks = (int)p.knob("nlocks", 1);
 			for (int i = 0; i < nlocks; i++) {
 				locks[i] = obj_alloc(sut_lock_size(ltype), 64);
-				sut_lock_construct(ltype, locks[i]);
+				sut_lock_construct(ltype, locks[i], (int)((p.seed >> 3) & 1)); // storage is garbage-filled (obj_alloc)
 				if (ltype == LT_TICKET && p.knobs.count("age") && layout_ok) {
 					// equivalent to `age` uncontended lock()/unlock() pairs (both counters advance together); relies on
 					// the lock being two 32-bit counters, which is checked through its size
